@@ -220,6 +220,7 @@ type TestPackage struct {
 	Path     string
 	Tests    []string // exported test function names (wasm names)
 	HeapBase uint32
+	isMain   bool
 	m        *wawazero.Module
 }
 
@@ -266,10 +267,50 @@ func BuildTestPackage(pkgpath string) (*TestPackage, error) {
 	return tp, nil
 }
 
+// BuildProgram compiles the program at path (a .wa/.wz file or a wa.mod
+// directory) for the default target with the allocator seam; its one "test" is
+// the program's main function.
+func BuildProgram(path string) (*TestPackage, error) {
+	cfg := config.DefaultConfig()
+	prog, err := loader.LoadProgram(cfg, path)
+	if err != nil {
+		return nil, err
+	}
+	out, err := compiler_wat.New().Compile(prog)
+	if err != nil {
+		return nil, err
+	}
+	wat, err := Instrument([]byte(out))
+	if err != nil {
+		return nil, err
+	}
+	wasm, err := Wat2Wasm(wat)
+	if err != nil {
+		return nil, err
+	}
+	tp := &TestPackage{Path: path, isMain: true}
+	if m := reHeapBase.FindSubmatch(wat); m != nil {
+		fmt.Sscan(string(m[1]), &tp.HeapBase)
+	}
+	tp.Tests = []string{prog.Manifest.MainPkg + ".main"}
+	tp.m, err = wawazero.VerifBuildModule(path, wasm, prog.Fset.ToJson(), addVerifHost)
+	if err != nil {
+		return nil, err
+	}
+	return tp, nil
+}
+
 // Run executes one test function on a fresh instance under the given host.
 func (tp *TestPackage) Run(test string, h Host) (stdout string, errText string) {
 	tp.m.VerifReset(context.WithValue(context.Background(), hostKey{}, h))
-	_, so, se, err := tp.m.RunFunc(test)
+	var so, se []byte
+	var err error
+	if tp.isMain {
+		// everything printed from instantiation on (package initialisers included)
+		so, se, err = tp.m.RunMain(test)
+	} else {
+		_, so, se, err = tp.m.RunFunc(test)
+	}
 	if err != nil {
 		errText = err.Error()
 		if i := strings.IndexByte(errText, '\n'); i >= 0 {
